@@ -42,6 +42,11 @@ type caseT struct {
 	T    string `json:"t"`
 	// Trunc >= 0: the input is S[:Trunc] and Len must fail.
 	Trunc int `json:"trunc"`
+	// Weak: the cut text begins with a complete value and goes on inside a token
+	// that cannot be completed ("1e", "1."): whether that is "one value and
+	// foreign text" or "an incomplete number" is left open, but IF Len answers,
+	// the prefix it points at must be one complete JSON text.
+	Weak bool `json:"weak,omitempty"`
 }
 
 func lenOf(role, text string) (n uint, err error) {
@@ -146,7 +151,19 @@ func admissible(role, s, sep, t string, endsWithInlineAnnotation bool) bool {
 func evalCase(cs caseT) (string, string) {
 	if cs.Trunc >= 0 {
 		in := cs.S[:cs.Trunc]
-		_, err := lenOf(cs.Role, in)
+		n, err := lenOf(cs.Role, in)
+		if cs.Weak {
+			if err != nil {
+				if strings.HasPrefix(err.Error(), "PANIC") {
+					return "panic", fmt.Sprintf("%s Len(%q) panics: %v", cs.Role, in, err)
+				}
+				return "", ""
+			}
+			if int(n) > len(in) || !oneJSONText(in[:n]) {
+				return "len-not-a-text", fmt.Sprintf("%s Len(%q) = %d, but %q is not one complete JSON text", cs.Role, in, n, in[:minInt(int(n), len(in))])
+			}
+			return "", ""
+		}
 		if err == nil {
 			return "incomplete-accepted", fmt.Sprintf("%s Len(%q) succeeds although the text is lexically incomplete (cut from %q)", cs.Role, in, cs.S)
 		}
@@ -174,6 +191,21 @@ func evalCase(cs caseT) (string, string) {
 		return dir, fmt.Sprintf("%s Len(%q) = %d, but the embedded %s %q ends at %d", cs.Role, in, n, cs.Role, cs.S, len(cs.S))
 	}
 	return "", ""
+}
+
+func minInt(a, b int) int {
+	if a < b {
+		return a
+	}
+	return b
+}
+
+func oneJSONText(s string) bool {
+	p := jsonpda.New()
+	for i := 0; i < len(s); i++ {
+		p.Feed(s[i])
+	}
+	return !p.Dead() && p.AcceptEOF()
 }
 
 func firstLine(s string) string {
@@ -262,6 +294,17 @@ func corpus(c *ev.Ctx) []item {
 				add(item{"schema", gen.Render(m, gen.Spelling{EOL: "\n", Indent: "  ", MultiLine: 2}).Text, false, false})
 			}
 		})
+	}
+	// every spelling class of a JSON number (sign, fraction, exponent with either
+	// case and sign), alone and nested: their proper prefixes ("-", "1.", "1e",
+	// "1e+") are the truncations the error clause is about
+	for _, num := range []string{"0", "-1", "-0", "10", "0.5", "-0.25", "1e5", "1E5", "1e+5", "1E-5", "1.5e3", "-2.5E+10", "12.75e-2", "100E0"} {
+		for _, w := range []string{num, "[" + num + "]", "[1," + num + "]", `{"a":` + num + "}"} {
+			add(item{"json", w, false, true})
+			if !strings.ContainsAny(num, "eE") { // the schema language refuses exponents in examples on purpose
+				add(item{"schema", w, false, true})
+			}
+		}
 	}
 	// annotations with a note AND a user comment behind it, last in the text and followed by more lines
 	for _, s := range []string{
@@ -375,7 +418,7 @@ func run(c *ev.Ctx) {
 				if !admissible(it.role, it.s, sep, t, it.inline) {
 					continue
 				}
-				cs := caseT{it.role, it.s, sep, t, -1}
+				cs := caseT{Role: it.role, S: it.s, Sep: sep, T: t, Trunc: -1}
 				dir, _ := evalCase(cs)
 				c.Eval(true)
 				if dir != "" {
@@ -396,8 +439,17 @@ func run(c *ev.Ctx) {
 				if strings.TrimSpace(it.s[:i+1]) == "" {
 					continue
 				}
+				if !p.Dead() && !p.AcceptEOF() && p.CompleteSeen {
+					cs := caseT{Role: it.role, S: it.s, Trunc: i + 1, Weak: true}
+					dir, desc := evalCase(cs)
+					c.Eval(true)
+					c.Inc("truncations_inside_a_number")
+					if dir != "" {
+						c.Violate(fmt.Sprintf("%s;%s;%q", dir, it.role, it.s[:i+1]), desc, cs)
+					}
+				}
 				if !p.Dead() && !p.AcceptEOF() && !p.CompleteSeen {
-					cs := caseT{it.role, it.s, "", "", i + 1}
+					cs := caseT{Role: it.role, S: it.s, Trunc: i + 1}
 					dir, desc := evalCase(cs)
 					c.Eval(true)
 					c.Inc("truncations")
@@ -445,18 +497,18 @@ func report(c *ev.Ctx, cs caseT, dir string, inline bool) {
 		var out []caseT
 		for i := 0; i < idx(seps, x.Sep); i++ {
 			if admissible(x.Role, x.S, seps[i], x.T, inline) {
-				out = append(out, caseT{x.Role, x.S, seps[i], x.T, -1})
+				out = append(out, caseT{Role: x.Role, S: x.S, Sep: seps[i], T: x.T, Trunc: -1})
 			}
 		}
 		for i := 0; i < idx(trails, x.T); i++ {
 			if admissible(x.Role, x.S, x.Sep, trails[i], inline) {
-				out = append(out, caseT{x.Role, x.S, x.Sep, trails[i], -1})
+				out = append(out, caseT{Role: x.Role, S: x.S, Sep: x.Sep, T: trails[i], Trunc: -1})
 			}
 		}
 		// simpler S of the same role: fixed ladder
 		for _, s := range []string{"{}", "[]", `"s"`, "1", "[1]"} {
 			if s != x.S && len(s) < len(x.S) && admissible(x.Role, s, x.Sep, x.T, false) && accepted(item{role: x.Role, s: s}) {
-				out = append(out, caseT{x.Role, s, x.Sep, x.T, -1})
+				out = append(out, caseT{Role: x.Role, S: s, Sep: x.Sep, T: x.T, Trunc: -1})
 			}
 		}
 		return out
